@@ -81,11 +81,18 @@ class H1b(Case):
         P1 = [lib.tp_prop(inp, "p%d" % k, d) for k in range(N)]
         P2 = [lib.tp_prop(inp, "q%d" % k, d) for k in range(N)]
         rho0 = inp.arr("r", (d, d))
-        times, ts, _ = ph.tempo_states(bath, params, lib.FakeSystem(d, P1, P2), rho0, N, unique=self.unique)
-        pt, _ = ph.pt_tempo_process_tensor(bath, params, N, unique=self.unique)
-        dyn = sd.compute_dynamics(lib.FakeSystem(d, P1, P2), initial_state=rho0, process_tensor=pt, progress_type="silent")
+        t0 = 1.5                       # non-zero start time (exact in binary)
+        sys_a, sys_b = lib.FakeSystem(d, P1, P2), lib.FakeSystem(d, P1, P2)
+        times, ts, _ = ph.tempo_states(bath, params, sys_a, rho0, N, start_time=t0, unique=self.unique)
+        pt, _ = ph.pt_tempo_process_tensor(bath, params, N, start_time=t0, unique=self.unique)
+        dyn = sd.compute_dynamics(sys_b, initial_state=rho0, process_tensor=pt, start_time=t0, progress_type="silent")
         st = lib.dynamics_states(dyn)
-        obs = [Ob.holds("N+1 states from both", len(st) == N + 1 and len(ts) == N + 1)]
+        obs = [Ob.holds("N+1 states from both", len(st) == N + 1 and len(ts) == N + 1),
+               Ob.holds("both methods ask the system for propagators with the same (dt, start_time) = (%s, %s): %s vs %s"
+                        % (dt, t0, sys_a.calls, sys_b.calls), sys_a.calls == [(dt, t0)] and sys_b.calls == [(dt, t0)],
+                        key="system receives dt and start_time"),
+               Ob.holds("same time labels", list(times) == list(dyn._times) and list(times) == [t0 + k * dt for k in range(N + 1)],
+                        key="time labels")]
         obs += [Ob.eq("step %d" % n, ts[n], st[n]) for n in range(N + 1)]
         return obs
 
